@@ -125,6 +125,11 @@ pub struct Machine {
     pub iret_done: bool,
     pub iret_expect: [u64; 5],
     pub iret_expect_on: bool,
+    /// harness hook called for every INVLPGB request (request number, rax, ecx, edx)
+    pub on_invlpgb: Option<fn(usize, u64, u32, u32)>,
+    /// after this many INVLPGB requests the path is cut (induction over the rest of the range)
+    pub invlpgb_limit: usize,
+    pub n_invlpgb: usize,
 }
 
 pub const RESET: Machine = Machine {
@@ -159,6 +164,9 @@ pub const RESET: Machine = Machine {
     iret_done: false,
     iret_expect: [0; 5],
     iret_expect_on: false,
+    on_invlpgb: None,
+    invlpgb_limit: usize::MAX,
+    n_invlpgb: 0,
 };
 
 pub static mut M: Machine = RESET;
@@ -385,7 +393,16 @@ impl Machine {
         self.ev(EV_INVPCID, kind, d[0], d[1], o);
     }
     pub fn invlpgb(&mut self, rax: u64, ecx: u32, edx: u32, o: u8) {
-        self.ev(EV_INVLPGB, rax, ecx as u64, edx as u64, o);
+        if self.n_invlpgb >= self.invlpgb_limit {
+            cut_path();
+        }
+        if let Some(f) = self.on_invlpgb {
+            f(self.n_invlpgb, rax, ecx, edx);
+        }
+        self.n_invlpgb += 1;
+        if self.n_invlpgb <= N_LOG / 2 {
+            self.ev(EV_INVLPGB, rax, ecx as u64, edx as u64, o);
+        }
     }
     pub fn tlbsync(&mut self, o: u8) {
         self.ev(EV_TLBSYNC, 0, 0, 0, o);
@@ -483,6 +500,14 @@ fn write_pseudo_descriptor(addr: u64, limit: u16, base: u64) {
         core::ptr::write_unaligned(addr as *mut u16, limit);
         core::ptr::write_unaligned((addr + 2) as *mut u64, base);
     }
+}
+
+/// End the current path (bounded exploration of an unbounded request loop).
+pub fn cut_path() {
+    #[cfg(kani)]
+    kani::assume(false);
+    #[cfg(not(kani))]
+    panic!("verif_isa: path cut (request limit reached)");
 }
 
 /// Called after a `noreturn` block: the real instruction never falls through.
